@@ -83,6 +83,8 @@ pub enum Req {
     Repetitive { marker: TagRef },
     /// claim the nth still unconsumed occurrence of a key directly (out-of-order mark_consumed)
     MarkAhead { tag: TagRef, nth: usize },
+    /// finder with a constraint made of option letters present in the text for that base (chosen by `mask`)
+    FindPresent { tag: TagRef, mask: u32, numbered: bool },
     /// split with config `cfg`, then run the finder on sequence `seq` (0=A,1=B,2=C) with the shared tracker
     FindInSeq { cfg: usize, seq: usize, tag: TagRef, constraint: Option<Vec<String>> },
 }
@@ -114,7 +116,7 @@ pub struct Spec {
 
 pub struct C16;
 
-const LETTERS: &[&str] = &["A", "B", "C", "D", "F", "K", "L", "M", "R", "S"];
+const LETTERS: &[&str] = &["A", "B", "C", "D", "F", "G", "H", "K", "L", "M", "R", "S"];
 
 pub fn split_configs() -> Vec<(String, SequenceConfig)> {
     let mut v: Vec<(String, SequenceConfig)> = ["MT101", "MT104", "MT107", "MT110", "MT204", "default"]
@@ -621,9 +623,32 @@ fn run_phase(ctx: &Arc<seam::RunCtx>, e_h: u64, text: &str, occs: &[(String, Str
         let c = st.consumer % k;
         let draining = si >= script_len;
         match &st.req {
-            Req::Find { tag, constraint } | Req::FindNumbered { tag, constraint, .. } => {
-                let base = resolve_tag(tag, &flat);
-                let numbered = if let Req::FindNumbered { numbered, .. } = &st.req { Some(numbered.clone()) } else { None };
+            Req::Find { .. } | Req::FindNumbered { .. } | Req::FindPresent { .. } => {
+                let (base, constraint_owned, numbered): (String, Option<Vec<String>>, Option<String>) = match &st.req {
+                    Req::Find { tag, constraint } => (resolve_tag(tag, &flat), constraint.clone(), None),
+                    Req::FindNumbered { tag, constraint, numbered } => (resolve_tag(tag, &flat), constraint.clone(), Some(numbered.clone())),
+                    Req::FindPresent { tag, mask, numbered } => {
+                        // constraint drawn from the option letters that actually coexist in the text for this base
+                        let base = resolve_tag(tag, &flat);
+                        let mut present: Vec<String> = flat
+                            .iter()
+                            .filter(|f| f.0.len() == base.len() + 1 && f.0.starts_with(&base) && f.0.chars().last().is_some_and(|c| c.is_ascii_uppercase()))
+                            .map(|f| f.0.chars().last().unwrap().to_string())
+                            .collect();
+                        present.sort();
+                        present.dedup();
+                        let mut chosen: Vec<String> = present.iter().enumerate().filter(|(j, _)| mask >> (j % 16) & 1 == 1).map(|(_, l)| l.clone()).collect();
+                        if chosen.is_empty() {
+                            chosen = present.clone();
+                        }
+                        if present.len() >= 2 && chosen.len() >= 2 {
+                            count(&mut ph, "probe.constraint_allows_two_coexisting_variants");
+                        }
+                        (base, Some(chosen), if *numbered { Some("50#2".to_string()) } else { None })
+                    }
+                    _ => unreachable!(),
+                };
+                let constraint = &constraint_owned;
                 let (exp, excluded) = model.expect_find(&base, constraint);
                 let got = call(c, Cmd::Find(base.clone(), constraint.clone(), numbered.clone()));
                 let Resp::Found(got) = got else {
@@ -859,10 +884,10 @@ impl Engine for C16 {
             text_muts.push(match w.below(22) {
                 0..=2 => TextMut::Dup { i: a, j: b },
                 3 | 4 => TextMut::Swap { i: a, j: b },
-                5..=8 => TextMut::Letter { i: a, letter: (*w.pick(&["A", "B", "C", "D", "F", "K", "L", ""])).to_string() },
+                5..=8 => TextMut::Letter { i: a, letter: (*w.pick(&["A", "B", "C", "D", "F", "G", "H", "K", "L", ""])).to_string() },
                 9 | 10 => TextMut::Insert {
                     j: b,
-                    tag: (*w.pick(&["99Z", "50K", "50A", "50F", "59", "59A", "21", "23E", "72", "79", "86", "61", "32B", "71F", "12"])).to_string(),
+                    tag: (*w.pick(&["99Z", "50K", "50A", "50F", "50C", "50L", "50G", "50H", "59", "59A", "59F", "52A", "52D", "21", "23E", "72", "79", "86", "61", "32B", "71F", "12"])).to_string(),
                     content: (*w.pick(&["X: Y", "/ACC/1:2:3", "LINE1\nLINE2", "0,", "A\n-B"])).to_string(),
                 },
                 11 | 12 => TextMut::Delete { i: a },
@@ -890,7 +915,8 @@ impl Engine for C16 {
                 let k = 1 + w.below(4);
                 Some((0..k).map(|_| (*w.pick(LETTERS)).to_string()).collect())
             };
-            let req = match w.below(46) {
+            let req = match w.below(52) {
+                46..=51 => Req::FindPresent { tag: if w.chance(1, 3) { TagRef::Literal("50".into()) } else { TagRef::BaseOf(w.below(1000)) }, mask: w.next() as u32 | if w.chance(1, 2) { 0xffff } else { 0 }, numbered: w.chance(1, 3) },
                 0..=21 => Req::Find { tag, constraint },
                 22..=24 => Req::FindNumbered { tag, constraint, numbered: format!("50#{}", 1 + w.below(2)) },
                 25 | 26 => Req::Peek { tag },
@@ -1065,7 +1091,7 @@ impl Engine for C16 {
         };
         out.absorb_ctx(&ctx);
         out.sim_ns = 0;
-        let shape: Vec<String> = spec.script.iter().map(|s| format!("{}{}", s.consumer, match &s.req { Req::Find { constraint, .. } => if constraint.is_some() { "Fc" } else { "F" }, Req::FindNumbered { .. } => "N", Req::Peek { .. } => "P", Req::Take { .. } => "T", Req::Remark { .. } => "R", Req::MarkForeign { .. } => "M", Req::CloneTracker => "C", Req::Retokenise => "K", Req::Split { .. } => "S", Req::Repetitive { .. } => "I", Req::MarkAhead { .. } => "A", Req::FindInSeq { .. } => "Q" })).collect();
+        let shape: Vec<String> = spec.script.iter().map(|s| format!("{}{}", s.consumer, match &s.req { Req::Find { constraint, .. } => if constraint.is_some() { "Fc" } else { "F" }, Req::FindNumbered { .. } => "N", Req::Peek { .. } => "P", Req::Take { .. } => "T", Req::Remark { .. } => "R", Req::MarkForeign { .. } => "M", Req::CloneTracker => "C", Req::Retokenise => "K", Req::Split { .. } => "S", Req::Repetitive { .. } => "I", Req::MarkAhead { .. } => "A", Req::FindInSeq { .. } => "Q", Req::FindPresent { .. } => "V" })).collect();
         out.shape_digest = fnv_str(&shape.join(" "));
         out.count(&format!("consumers.{}", spec.consumers.clamp(1, 4)), 1);
         (out, resolved)
